@@ -498,7 +498,7 @@ pub fn suite(prop: &str, tier: &str, _seed: u64) -> Report {
             }
         }
     }
-    rep.bound = "scan: C16: every string of up to 5 (thorough: 6) bytes over {space, tab, CR, LF, a} x 8 scanners (tabs_or_spaces, newline, next_newline, fixed with 5 patterns) x every offset 0..len+1 x every amount of pre-buffered data x 3 refill schedules, delivered bytes counted with one byte per read; every string of up to 3 bytes over 17 bytes that alias a blank or a line end when a bit is dropped; the strings of up to 4 (thorough: 5) bytes again after 8 histories (0..13 bytes requested and advanced over with chunk sizes 1..4 so that the buffer has been realigned, 0..3 bytes of extra look-ahead, every 2nd or 3rd read interrupted); C13: every string of up to 4 (thorough: 5) bytes over {0,1,2,5,7,8,9,-,x} for i8/u8/i16/u16 and the values within 11 of every MIN/MAX of the 12 integer types (plus x10, 128-bit limits, lone and double minus), zero padded by 0/1/7/8/20, with 5 suffixes and 3 prefixes, for all four scanners, 12 types, up to 10 amounts of buffered data around the 8-byte fast-path threshold; the reference value comes from the standard library's integer parser".to_string();
+    rep.bound = "scan: C16: every string of up to 5 (thorough: 6) bytes over {space, tab, CR, LF, a} x 8 scanners (tabs_or_spaces, newline, next_newline, fixed with 5 patterns) x every offset 0..len+1 x every amount of pre-buffered data x 3 refill schedules, delivered bytes counted with one byte per read; every string of up to 3 bytes over 17 bytes that alias a blank or a line end when a bit is dropped; 4 lines of 20-30 bytes with multi-byte and invalid bytes at 6 amounts of buffered data; with chunk size 1 and a source offering 100 bytes the reader is built from an unused BufReader of capacity 8; the strings of up to 4 (thorough: 5) bytes again after 8 histories (0..13 bytes requested and advanced over with chunk sizes 1..4 so that the buffer has been realigned, 0..3 bytes of extra look-ahead, every 2nd or 3rd read interrupted); C13: every string of up to 4 (thorough: 5) bytes over {0,1,2,5,7,8,9,-,x,0xb5} for i8/u8/i16/u16 and the values within 11 of every MIN/MAX of the 12 integer types (plus x10, 128-bit limits, lone and double minus), zero padded by 0/1/7/8/20, with 5 suffixes and 3 prefixes, for all four scanners, 12 types, up to 10 amounts of buffered data around the 8-byte fast-path threshold; the reference value comes from the standard library's integer parser".to_string();
     rep
 }
 pub fn replay(_prop: &str, args: &[String]) -> i32 {
